@@ -414,12 +414,14 @@ func fixTransferEncoding(requestMethod string, header Header) ([]string, error) 
 	encodings := strings.Split(raw[0], ",")
 	te := make([]string, 0, len(encodings))
 	for _, encoding := range encodings {
-		encoding = strings.ToLower(strings.Trim(encoding, " \t"))
-		if encoding != "chunked" {
+		encoding = strings.Trim(encoding, " \t")
+		// Note: compare ASCII letters only. strings.ToLower/EqualFold would also
+		// accept non-ASCII letters which fold to ASCII (eg. U+212A KELVIN SIGN)
+		if !asciiEqualFold(encoding, "chunked") {
 			return nil, &badStringError{"unsupported transfer encoding", encoding}
 		}
 		te = te[0 : len(te)+1]
-		te[len(te)-1] = encoding
+		te[len(te)-1] = "chunked"
 	}
 	if len(te) > 1 {
 		return nil, &badStringError{"too many transfer encodings", strings.Join(te, ",")}
@@ -433,6 +435,26 @@ func fixTransferEncoding(requestMethod string, header Header) ([]string, error) 
 	}
 
 	return nil, nil
+}
+
+// asciiEqualFold reports whether s and t are equal, ASCII-case-insensitively.
+func asciiEqualFold(s, t string) bool {
+	if len(s) != len(t) {
+		return false
+	}
+	for i := 0; i < len(s); i++ {
+		a, b := s[i], t[i]
+		if 'A' <= a && a <= 'Z' {
+			a += 'a' - 'A'
+		}
+		if 'A' <= b && b <= 'Z' {
+			b += 'a' - 'A'
+		}
+		if a != b {
+			return false
+		}
+	}
+	return true
 }
 
 // Determine the expected body length, using RFC 2616 Section 4.4. This
